@@ -35,7 +35,13 @@ func utxoChild(args []string) {
 	// what the database has asked for and not given back (its delete paths call Memory_Free from several goroutines)
 	var outstanding atomic.Int64
 	utxo.Memory_Malloc = func(n int) *[]byte { outstanding.Add(1); return A.Malloc(n) }
-	utxo.Memory_Free = func(p *[]byte) { outstanding.Add(-1); A.Free(p) }
+	utxo.Memory_Free = func(p *[]byte) {
+		outstanding.Add(-1)
+		for i := range *p { // whatever still reads a freed record gets poison, whether or not the slot is reused at once
+			(*p)[i] = 0xDD
+		}
+		A.Free(p)
+	}
 	utxo.UTXO_WRITING_TIME_TARGET = 0
 
 	dir, _ := os.MkdirTemp("", "c20utxo")
@@ -264,6 +270,61 @@ func utxoChild(args []string) {
 	for i := 0; i < 3; i++ {
 		if !offer(g.RandomBlock(s.Ref.Tip, 3), "after-save") {
 			return
+		}
+	}
+	// phase D: multi-output records partially spent, one output per block, from several thousand records at a time: the
+	// delete workers of UnspentDB.commit re-serialize shrunk records (free + allocate) while the insert workers allocate
+	{
+		view := g.View(s.Ref.Tip)
+		h := s.Ref.Tip.Height + 1
+		var src refchain.OutPoint
+		found := false
+		for _, op := range g.Spendable(view, h, true) {
+			if view[op].Value > 40000000 {
+				src, found = op, true
+				break
+			}
+		}
+		if found {
+			const nrec, nout = 2500, 4
+			c := view[src]
+			per := (c.Value - 10000) / nrec
+			outs := make([]refchain.TxOut, nrec)
+			for i := range outs {
+				outs[i] = g.OutTrue(per)
+			}
+			split := g.Spend([]refchain.OutPoint{src}, []refchain.Coin{c}, outs, 1, 0, nil, -1)
+			if !offer(g.Build(chainsim.BlockSpec{Parent: s.Ref.Tip, Txs: []*refchain.Tx{split}, Fees: c.Value - per*nrec}), "splitter-2") {
+				return
+			}
+			sid := split.TxID()
+			multi := make([]*refchain.Tx, nrec)
+			each := (per - 10) / nout
+			for i := range multi {
+				t := &refchain.Tx{Version: 1, In: []refchain.TxIn{{Prev: refchain.OutPoint{Hash: sid, Idx: uint32(i)}, Sequence: 0xffffffff}}}
+				for q := 0; q < nout; q++ {
+					t.Out = append(t.Out, refchain.TxOut{Value: each, Script: append([]byte{0x4c, byte(20 + q)}, append(r.Bytes(20+q), 0x75, 0x51)...)})
+				}
+				multi[i] = t
+			}
+			if !offer(g.Build(chainsim.BlockSpec{Parent: s.Ref.Tip, Txs: multi, Fees: uint64(nrec) * (per - each*nout)}), "multi-output-records") {
+				return
+			}
+			for q := 0; q < nout-1; q++ {
+				var txs []*refchain.Tx
+				for i := 0; i < nrec; i += 50 {
+					t := &refchain.Tx{Version: 1}
+					for j := i; j < i+50 && j < nrec; j++ {
+						t.In = append(t.In, refchain.TxIn{Prev: refchain.OutPoint{Hash: multi[j].TxID(), Idx: uint32(q)}, Sequence: 0xffffffff})
+					}
+					t.Out = []refchain.TxOut{g.OutTrue(each*uint64(len(t.In)) - 10), g.OutTrue(1)}
+					txs = append(txs, t)
+				}
+				if !offer(g.Build(chainsim.BlockSpec{Parent: s.Ref.Tip, Txs: txs, Fees: uint64(len(txs)) * 9}), "partial-spend") {
+					return
+				}
+				run.Count("records_partially_spent_on_allocator", nrec)
+			}
 		}
 	}
 	run.Count("allocations_the_database_holds_beyond_its_records(recorded, not judged)", outstanding.Load()-records())
